@@ -77,7 +77,7 @@ func (c *Ctx) depsOf(fn *ssa.Function, in ssa.Instruction) []Lit {
 
 func runC16(c *Ctx, r *Report, tier string) {
 	r.Rule("PRED", "shape of the visibility predicates", 4)
-	r.Rule("ROW", "emit sites are guarded by visibility (required) and by nothing else (allowed guards)", 10)
+	r.Rule("ROW", "emit sites are guarded by visibility (required) and by nothing else (allowed guards)", 8)
 	r.Rule("COMMANDS", "printed command lists derive from sortedVisibleCommands; raw Command.commands only measured", 5)
 	r.Rule("ATTR", "listed attributes reach the writer", 10)
 	r.Rule("MASK", "defaults reach a writer only under an empty DefaultMask", 4)
@@ -322,7 +322,7 @@ func runC16(c *Ctx, r *Report, tier string) {
 		if iff, ok := b.Instrs[len(b.Instrs)-1].(*ssa.If); ok {
 			l := c.cond(iff.Cond)
 			if strings.HasPrefix(l.Term, "lt(3, len(") {
-				r.Check(strings.HasPrefix(l.Term, "lt(3, len(call:(*Command).visibleCommands("), "COMMANDS", c.fname(wh), "usage line counts visible commands", c.ipos(iff), "len(visibleCommands()) > 3", "the usage line counts "+trunc(l.Term, 100))
+				r.Check(strings.HasPrefix(l.Term, "lt(3, len(call:(*Command).visibleCommands(") || strings.HasPrefix(l.Term, "lt(3, len(call:(*Command).sortedVisibleCommands("), "COMMANDS", c.fname(wh), "usage line counts visible commands", c.ipos(iff), "len(visibleCommands()) > 3", "the usage line counts "+trunc(l.Term, 100))
 			}
 		}
 	}
